@@ -24,6 +24,24 @@ CHECK = "C13"
 CHUNK = 24
 SET_KEYS = ("phase_overlap", "preempt_pairs")
 TIERS = {"quick": 2400, "thorough": 40000}
+WALL_CAP = {"quick": 600.0, "thorough": 3300.0}
+DET_SAMPLE = {"quick": 64, "thorough": 1000}
+RULE = (
+    "evaluation = one simulated run: a history of 1-4 epochs (sequential or 2-4 simulated caller threads, <= 12 formatting calls) "
+    "executed under one seeded schedule (Bernoulli / PCT / site-targeted) and fault list (aborted call, cache eviction, GC), every "
+    "returned call compared with its pristine-process reference. distinct_nontrivial = distinct event-log digests among runs that "
+    "contain more than one call or at least one voluntary thread switch (a single call run alone cannot show interference)."
+)
+ASSUMPTIONS = [
+    "pre-emption only at Python call (optionally return / line) events of frames under flowmark/ and marko/; C extensions (regex, _functools), the interpreter and individual bytecodes are atomic",
+    "reference = the same call executed first-and-only in a forked child of a worker that has imported flowmark and formatted nothing",
+    "one Markdown object is never shared between threads by the workload (Marko documents that as unsupported)",
+    "locks created through threading.Lock/RLock after the harness patch are cooperative; other blocking primitives are not simulated",
+]
+COMPONENTS = {
+    "real": ["flowmark.reformat_text / fill_markdown / fill_text / flowmark_markdown().convert / wrap_paragraph", "marko parser and renderer", "regex/re", "CPython threads (one runnable at a time)"],
+    "stub": ["OS thread scheduling (baton passing + seeded policy)", "threading.Lock/RLock (SimLock)", "KeyboardInterrupt/MemoryError-style aborts (InjectedAbort raised from the trace function)"],
+}
 
 # ---------------------------------------------------------------------------------------------
 # executing one call descriptor against the flowmark API (the only place that touches it)
